@@ -418,6 +418,22 @@ impl Matcher {
                 }
             }
 
+            // Splits/unsplits take effect after the day's trades: later disposals are
+            // quoted in the new units, so the held lots must be rescaled to match.
+            for tx in &transactions[i..day_end] {
+                if let Some(ledger) = ledgers.get_mut(&tx.ticker) {
+                    match &tx.operation {
+                        Operation::Split { ratio } => {
+                            ledger.rescale_quantities(*ratio, Decimal::ONE);
+                        }
+                        Operation::Unsplit { ratio } => {
+                            ledger.rescale_quantities(Decimal::ONE, *ratio);
+                        }
+                        _ => {}
+                    }
+                }
+            }
+
             i = day_end;
         }
 
